@@ -276,11 +276,19 @@ func tokenizeForSemantics(content string) []semanticToken {
 			lineStarts = append(lineStarts, i+1)
 		}
 	}
+	// tokens arrive left to right: the column of the previous token is extended, so that a long
+	// line is measured once and not once per token
+	lastLine, lastOffset, lastCol := 0, 0, 0
 	utf16Col := func(line, offset int) uint32 {
 		if line < 1 || line > len(lineStarts) || offset > len(content) || offset < lineStarts[line-1] {
 			return 0
 		}
-		return uint32(lsputil.UTF16Len(content[lineStarts[line-1]:offset]))
+		if line != lastLine || offset < lastOffset {
+			lastLine, lastOffset, lastCol = line, lineStarts[line-1], 0
+		}
+		lastCol += lsputil.UTF16Len(content[lastOffset:offset])
+		lastOffset = offset
+		return uint32(lastCol)
 	}
 
 	inDirective := false
@@ -397,8 +405,14 @@ func extractTagTokensFromComment(tok parser.Token, commentCol uint32) []semantic
 	var tokens []semanticToken
 	baseLine := uint32(tok.Pos.Line - 1)
 	// +1 accounts for the semicolon; offsets inside the comment are bytes and are converted
+	measuredOffset, measuredUnits := 0, 0
 	colAt := func(byteOffset int) uint32 {
-		return commentCol + 1 + uint32(lsputil.UTF16Len(commentText[:byteOffset]))
+		if byteOffset < measuredOffset {
+			measuredOffset, measuredUnits = 0, 0
+		}
+		measuredUnits += lsputil.UTF16Len(commentText[measuredOffset:byteOffset])
+		measuredOffset = byteOffset
+		return commentCol + 1 + uint32(measuredUnits)
 	}
 
 	parts := strings.Split(commentText, ",")
